@@ -266,7 +266,10 @@ where
             // check for termination due to slow progress and update strategy
             if isdone{
                     match self.strategy_checkpoint_insufficient_progress(scaling){
-                        StrategyCheckpoint::NoUpdate | StrategyCheckpoint::Fail => {break}
+                        StrategyCheckpoint::NoUpdate => {break}
+                        // the previous iterate was restored, so the last step is
+                        // void.  Zero it so that the restored iterate gets reported
+                        StrategyCheckpoint::Fail => {α = T::zero(); break}
                         StrategyCheckpoint::Update(s) => {scaling = s; continue}
                     }
             }  // allows continuation if new strategy provided
